@@ -3,6 +3,7 @@ package protocol
 import (
 	"bytes"
 	"encoding/binary"
+	"errors"
 )
 
 type LLDP struct {
@@ -92,11 +93,15 @@ func (t *ChassisTLV) Write(b []byte) (n int, err error) {
 		return
 	}
 	n += 1
-	t.Data = make([]uint8, t.Length)
+	// the TLV length covers the subtype byte and the id that follows it
+	if t.Length < 1 {
+		return n, errors.New("LLDP id TLV is too short to hold its subtype")
+	}
+	t.Data = make([]uint8, t.Length-1)
 	if err = binary.Read(buf, binary.BigEndian, &t.Data); err != nil {
 		return
 	}
-	n += int(t.Length)
+	n += int(t.Length) - 1
 	return
 }
 
@@ -143,11 +148,15 @@ func (t *PortTLV) Write(b []byte) (n int, err error) {
 		return
 	}
 	n += 1
-	t.Data = make([]uint8, t.Length)
+	// the TLV length covers the subtype byte and the id that follows it
+	if t.Length < 1 {
+		return n, errors.New("LLDP id TLV is too short to hold its subtype")
+	}
+	t.Data = make([]uint8, t.Length-1)
 	if err = binary.Read(buf, binary.BigEndian, &t.Data); err != nil {
 		return
 	}
-	n += int(t.Length)
+	n += int(t.Length) - 1
 	return
 }
 
